@@ -48,6 +48,10 @@ type cfgData struct {
 	// pollAt: (Poll-type query) round at which another goroutine calls Poll on
 	// the reconnecting client, on a transport that has stalled; 0 = never
 	pollAt int
+	// badTypes: (part e) Subscribe is given this many client types whose
+	// constructor fails, listed BEFORE the working one (allBad: no working one)
+	badTypes int
+	allBad   bool
 	cache   bool   // b: CacheClient instead of BaseClient
 	resps   string // c: response sequence
 	qtype   client.Type
@@ -168,6 +172,13 @@ func configsBase(tier string) []xplore.Config {
 				out = append(out, xplore.Config{Name: fmt.Sprintf("e: real client (cache=%v) used directly, Subscribe x%d over scripted impl conns=%v, Close from another goroutine started at transport event %d", cache, len(sc), sc, at), Bound: bound - 2, Data: cfgData{part: "e", attempts: sc, cache: cache, closeAt: at}})
 			}
 		}
+	}
+	// (e, continued) several client types: Subscribe is given 1..5 client types
+	// whose constructor fails ahead of the one that works (a target that refuses
+	// the protocols tried first), or only failing ones
+	for bad := 1; bad <= 5; bad++ {
+		out = append(out, xplore.Config{Name: fmt.Sprintf("e: real client used directly, %d failing client types listed before the working one, conns=[bf], Close started at transport event 1", bad), Bound: bound - 2, Data: cfgData{part: "e", attempts: []string{"bf"}, closeAt: 1, badTypes: bad}})
+		out = append(out, xplore.Config{Name: fmt.Sprintf("e: real client used directly, %d client types that all fail, Close afterwards", bad), Bound: bound - 2, Data: cfgData{part: "e", attempts: []string{"f"}, closeAt: 99, badTypes: bad, allBad: true}})
 	}
 	// (e, continued) the application's handler itself calls Close on its n-th update
 	for _, sc := range [][]string{{"bbbp"}, {"nnp"}, {"bf", "bbp"}} {
@@ -925,12 +936,30 @@ func runE(cfg xplore.Config, d cfgData, ch vrt.Chooser, trace bool) (xplore.Outc
 			return nil
 		}
 		q := client.Query{Addrs: []string{"addr"}, Target: "t", Type: client.Stream, Queries: []client.Path{{"*"}}, NotificationHandler: handler}
+		var types []string
+		for k := 0; k < d.badTypes; k++ {
+			n := fmt.Sprintf("bad%d", k)
+			client.RegisterTest(n, func(ctx context.Context, dst client.Destination) (client.Impl, error) {
+				return nil, fmt.Errorf("protocol refused")
+			})
+			types = append(types, n)
+		}
+		if !d.allBad {
+			types = append(types, "scripted")
+		}
 		subDone := false
 		vrt.GoNamed("subscribe", func() {
 			for i, sc := range d.attempts {
 				closedBefore := closeInvoked
-				err := c.Subscribe(vcontext.Background(), q, "scripted")
+				err := c.Subscribe(vcontext.Background(), q, types...)
 				tr.add("SUB-RETURNED#%d(%v)", i, err)
+				if d.allBad {
+					if err == nil {
+						viol("subscribe-status", "every client type failed but Subscribe returned nil; trace: %s", tr)
+					}
+					closeReturned = true // nothing to close: no transport ever existed
+					continue
+				}
 				if !closedBefore && !closeInvoked {
 					// nobody interfered: the stream's own end decides the result
 					if strings.HasSuffix(sc, "f") && err != nil {
